@@ -19,6 +19,9 @@ oracle:         on hand-written packages (0-8 declarations of all seven value ty
                   value attribute of the named declarations
                 * every declaration of the output has exactly the source's attributes except that one
                 * listing never changes the source bytes, writes nothing to the destination or to stdout
+                * histories (2-4 list / get / update calls on ONE UserFields object, or two objects on one source; destination a
+                  fresh buffer, or the source path / buffer itself): every call's result depends only on the source as it is at
+                  that moment and on its own arguments (independent reference + the same call on a fresh object)
 """
 import io, os, sys, hashlib, json, tempfile, shutil, contextlib, copy
 from common import enc_str, dec_str, InfraError, REPO
@@ -361,6 +364,140 @@ def run_case(chk, drv, case, tmpdir=None, lexical=False):
     return fails
 
 
+# ---------------------------------------------------------------------------------------------------------------
+# histories: several calls on ONE UserFields object (and two objects on one source)
+# ---------------------------------------------------------------------------------------------------------------
+def gen_history(rng, case):
+    names = [dict(tuple(x) for x in a)[u'text:name'] for a in case['decls'] + case['header']]
+    by_name = {}
+    for a in case['decls'] + case['header']:
+        d = dict(tuple(x) for x in a)
+        by_name.setdefault(d[u'text:name'], []).append(d.get(u'office:value-type'))
+
+    def some_data():
+        data = {}
+        for nm, ts in sorted(by_name.items()):
+            if rng.random() < 0.5:
+                if u'boolean' in ts:
+                    data[nm] = rng.choice(NEW[u'boolean'])
+                else:
+                    data[nm] = rand_string(rng) if ts[0] in (u'string', u'zzz', None) else rng.choice(NEW[ts[0]])
+        if rng.random() < 0.2:
+            data[u'nosuch'] = u'x'
+        return sorted(data.items())
+    ops = []
+    for i in range(rng.choice([2, 3, 3, 4])):
+        r = rng.random()
+        who = rng.choice([0, 1])
+        if r < 0.45 or i == 0:
+            ops.append(['update', some_data(), who])
+        elif r < 0.65:
+            ops.append(['list', None, who])
+        elif r < 0.85:
+            ops.append(['get', rng.choice(names) if names else u'nosuch', who])
+        else:
+            ops.append(['names', None, who])
+    return {'mode': rng.choice(['bytesio', 'bytesio', 'path', 'path-in-place', 'bytesio-in-place', 'two-objects']), 'ops': ops}
+
+
+def members_equal(X, Y):
+    """same member names in the same order, XML members infoset-equal, the others byte-equal"""
+    if [n for n, _ in X] != [n for n, _ in Y]:
+        return 'member lists differ: %r / %r' % ([n for n, _ in X], [n for n, _ in Y])
+    for (n, a), (_, b) in zip(X, Y):
+        if n in XML_MEMBERS:
+            if ufgen.canon(ufgen.parse_tree(a)) != ufgen.canon(ufgen.parse_tree(b)):
+                return 'infoset of %s differs' % n
+        elif a != b:
+            return 'bytes of %s differ' % n
+    return None
+
+
+def run_history(chk, drv, case, tmpdir):
+    """every call must behave as if made on a fresh object: its result depends only on the source as it is when the
+    call is made (bytes on disk / in the buffer) and on the call's own arguments"""
+    from odf.userfield import UserFields
+    fails = []
+
+    def fail(sig, detail):
+        fails.append((sig, detail))
+        if chk is not None:
+            chk.fail(sig, case, detail)
+    hist = case['history']
+    mode = hist['mode']
+    src, _ = build(case)
+    path = os.path.join(tmpdir, 'hist.odt')
+    if mode.startswith('path'):
+        with open(path, 'wb') as f:
+            f.write(src)
+        source = path
+    else:
+        source = io.BytesIO(src)
+
+    def current():
+        if mode.startswith('path'):
+            with open(path, 'rb') as f:
+                return f.read()
+        return source.getvalue()
+    in_place = mode.endswith('in-place')
+    objs = [UserFields(source, source if in_place else io.BytesIO())]
+    objs.append(UserFields(source, source if in_place else io.BytesIO()) if mode == 'two-objects' else objs[0])
+    for step, (op, arg, who) in enumerate(hist['ops']):
+        u = objs[who]
+        now = current()
+        now_members = ufgen.unzip(now)
+        want_rows = ref_rows(ufgen.read_decls(now_members))
+        where = 'call %d (%s) of the history in mode %s' % (step + 1, op, mode)
+        cap = io.StringIO()
+        try:
+            with contextlib.redirect_stdout(cap):
+                if op == 'list':
+                    got = u.list_fields_and_values()
+                    if sorted(map(repr, got)) != sorted(map(repr, want_rows)):
+                        fail('history-read', '%s: list_fields_and_values() = %r, the source now says %r' % (where, got, want_rows))
+                    if drv is not None:
+                        intern, akeys = Interner(), Interner()
+                        items = items_of(now_members, ordered_decl_attrs(now_members), intern, akeys)
+                        ans = drv.ask('list %d %s' % (len(items), show_items(items)))
+                        chk.corr()
+                        if ans.strip() != ('ok ' + show_rows(got)).strip():
+                            chk.corr_diff(case, 'ok ' + show_rows(got), ans, where + ': rows')
+                elif op == 'names':
+                    got = u.list_fields()
+                    if sorted(map(repr, got)) != sorted(repr(r[0]) for r in want_rows):
+                        fail('history-read', '%s: list_fields() = %r, the source now says %r' % (where, got, [r[0] for r in want_rows]))
+                elif op == 'get':
+                    got = u.get(arg)
+                    same = [r for r in want_rows if r[0] == arg]
+                    if got != (same[0][2] if same else None):
+                        fail('history-read', '%s: get(%r) = %r, the source now says %r' % (where, arg, got, same[:1]))
+                else:
+                    data = dict((k, v) for k, v in arg)
+                    if not in_place:
+                        u.dest_file = io.BytesIO()
+                    u.update(dict(data))
+                    out = current() if in_place else u.dest_file.getvalue()
+                    if not in_place and current() != now:
+                        fail('source-modified', '%s changed the source' % where)
+                    B = ufgen.unzip(out)
+                    want_decls = [ref_update_decl(d, data) for d in ufgen.read_decls(now_members)]
+                    if ufgen.read_decls(B) != want_decls:
+                        bad = [(g, w) for g, w in zip(ufgen.read_decls(B), want_decls) if g != w][:2]
+                        fail('history-update', '%s: declarations of the output are not those of the source (as it was when the call '
+                             'was made) with the named values replaced: (got, want) %r' % (where, bad))
+                    fresh = io.BytesIO()
+                    UserFields(io.BytesIO(now), fresh).update(dict(data))
+                    diff = members_equal(ufgen.unzip(fresh.getvalue()), B)
+                    if diff:
+                        fail('history-update', '%s: output differs from the same update made by a fresh object on the same bytes: %s' % (where, diff))
+        except Exception as e:      # noqa
+            fail('history-raises', '%s raised %r' % (where, e))
+            break
+        if cap.getvalue():
+            fail('listing-writes', '%s wrote to stdout' % where)
+    return fails
+
+
 LEXICAL_BOOL = [u'TRUE', u'False', u'1', u'0', u'yes', u'NO', u'maybe', u'', u' true', u'true', u'ı', u'FALSE\n']
 
 
@@ -380,7 +517,10 @@ def run(chk, replay=None):
         case = replay['input']
         tmp = tempfile.mkdtemp(prefix='c19-')
         try:
-            fails = run_case(None, None, case, tmp, lexical=case.get('lexical', False))
+            if 'history' in case:
+                fails = run_history(None, None, case, tmp)
+            else:
+                fails = run_case(None, None, case, tmp, lexical=case.get('lexical', False))
         finally:
             shutil.rmtree(tmp, ignore_errors=True)
         print('replay: %d failures %s' % (len(fails), fails[:3]))
@@ -419,6 +559,18 @@ def run(chk, replay=None):
             if len(hit) < len(case['data']):
                 chk.count('dictionary-has-unknown-name')
             run_case(chk, drv, case, tmp if i % 10 == 0 else None)
+        # histories on one object / two objects on one source
+        for i in range(N // 2):
+            case = gen_case(chk.rng)
+            if not case['decls'] and chk.rng.random() < 0.7:
+                continue
+            case['history'] = gen_history(chk.rng, case)
+            del case['data']
+            chk.case(json.dumps(case, sort_keys=True), nontrivial=sum(1 for o in case['history']['ops'] if o[0] == 'update' and o[1]) >= 1,
+                     sample={'history': [o[0] for o in case['history']['ops']], 'mode': case['history']['mode']} if i % 60 == 0 else None)
+            chk.count('history.' + case['history']['mode'])
+            chk.count('history.calls=%d' % len(case['history']['ops']))
+            run_history(chk, drv, case, tmp)
         # lexical cases: the boolean converter (correspondence only)
         for v in LEXICAL_BOOL:
             case = {'decls': [[(u'text:name', u'b'), (u'office:value-type', u'boolean'), (u'office:boolean-value', u'false')],
